@@ -16,6 +16,10 @@ fn replay(file: &str) -> ! {
         "miner-life/c04" => replay_with(&c04::scenario(tier).0, &v),
         "miner-life/c05" => replay_with(&c05::scenario(tier).0, &v),
         "handover" => replay_with(&c13::scenario(tier).0, &v),
+        "miner-life/c15-rich" => replay_with(&c15::scenario_regime(tier, false).0, &v),
+        "miner-life/c15-poor" => replay_with(&c15::scenario_regime(tier, true).0, &v),
+        "vesting-component" => replay_with(&c14::scenario_component(tier), &v),
+        "withdrawals" => replay_with(&c14::scenario_actor(tier), &v),
         "multisig" => replay_with(&c12::scenario(tier).0, &v),
         s if s.starts_with("c09") => c09::replay(&v),
         s if s.starts_with("c17") => c17::replay(&v),
@@ -58,6 +62,8 @@ fn real_main() {
         "C09" => c09::run(&tier),
         "C12" => c12::run(&tier),
         "C13" => c13::run(&tier),
+        "C14" => c14::run(&tier),
+        "C15" => c15::run(&tier),
         "C16" => c16::run(&tier),
         "C17" => c17::run(&tier),
         "C18" => c18::run(&tier),
